@@ -37,7 +37,8 @@ pub struct FuLi;
 
 impl private::Estimator for FuLi {
     fn estimate_unchecked<S: State>(spectrum: &Spectrum<S>) -> f64 {
-        spectrum.inner().as_slice()[1]
+        // Undefined if the spectrum has no singleton class
+        spectrum.inner().as_slice().get(1).copied().unwrap_or(f64::NAN)
     }
 
     fn weight(_: usize, _: usize) -> f64 {
